@@ -677,14 +677,17 @@ theorem C07_gen_structure :
   decide
 
 
-/-! ## 8b. the independent specification (`Spec.lean`): no report ⇔ the point satisfies the model within tolerances
+/-! ## 8b. the specification of `Spec.lean`: no report ⇔ the point satisfies the model within tolerances
 
-`SatTolPass` / `SatTol` are written from the model data and the property text alone (no candidate list, no `Violation`, no
-checker function).  `C07_sat_pass_partial` / `C07_sat_iff_partial`: the checker's report is empty exactly when they hold —
-under the explicit hypotheses `SatHyp` that name the two places where the real checker does NOT follow the specification
-(the theorems carry `_partial` for that reason; the full-strength statement is the same equivalence without
-`untested_hold` and `no_ctx_none`, and is FALSE for the code as it exists: `C07_counterexample_untested_adef`,
-`C07_counterexample_untested_unused`, `C07_counterexample_ctx_none` right below). -/
+`SatTolPassTested` / `SatTolTested` (and `SatTolPass` / `SatTol` without the restriction to tested constraints) are written from
+the model data and the property text: no candidate list, no `Violation`, no violation measure, mathematical function values
+(`Func.denote`).  What they still share with the checker model is listed in the header of `Spec.lean`.
+`C07_sat_pass_tested_partial` / `C07_sat_iff_tested_partial`: the checker's report is empty exactly when the point satisfies the
+bounds, integrality, objectives and the constraints the checker tests — under the explicit hypotheses `SatHypT`
+(`no_ctx_none`, `in_domain`, well-formed rows, tolerances in `[0,1)`; hence `_partial`).  `C07_sat_pass_partial` /
+`C07_sat_iff_partial` state it against the unrestricted `SatTol` and for that ASSUME `untested_hold`.  Without these hypotheses the
+equivalence is FALSE for the code as it exists: `C07_counterexample_untested_adef`, `C07_counterexample_untested_unused`,
+`C07_counterexample_ctx_none`, `C07_counterexample_domain` below. -/
 
 /-- the row holds exactly -/
 def RowExact (c : AlgCon) (x : Pt) : Prop :=
